@@ -258,7 +258,7 @@ func (o *orch) compareOn(j *job, emu *Result, ts PlatSpec) {
 	if ts.Name != j.pair.Timing.Name {
 		variant = strings.TrimPrefix(ts.Name, j.pair.GPU+"/")
 	}
-	key, what := o.keyFor(j, ts, variant, diff, t, fd, wit)
+	key, what := o.keyFor(j, ts, variant, diff, t, fd, wit, emu, ef.res, tf.res)
 	c.Violation(key, what, wit)
 	// keep exploring: features / variants reproduced by the canonical battery
 	// are not used by seeded programs of this pair
@@ -407,7 +407,7 @@ func locate(emu, tim *Result) firstDiv {
 	return best
 }
 
-func (o *orch) keyFor(j *job, ts PlatSpec, variant, diff string, t runOut, fd firstDiv, wit map[string]any) (string, string) {
+func (o *orch) keyFor(j *job, ts PlatSpec, variant, diff string, t runOut, fd firstDiv, wit map[string]any, emu, emuFull, timFull *Result) (string, string) {
 	prefix := "C02|" + j.pair.Arch + "|" + j.pair.GPU
 	if variant != "" {
 		prefix += "|variant:" + variant
@@ -440,6 +440,10 @@ func (o *orch) keyFor(j *job, ts PlatSpec, variant, diff string, t runOut, fd fi
 		}
 		return k, "program terminates in emulation and never finishes on the timing platform (engine idle, application waiting; phase " + t.res.Phase + ")"
 	}
+	if cl, det, ok := explainLoadDiff(emuFull, timFull, fd); ok {
+		k := fmt.Sprintf("%s|first-divergence|%s|%d|%s|loads-%s", prefix, fd.Fmt, fd.Op, fd.Name, cl)
+		return k, fmt.Sprintf("first diverging instruction: %s at pc 0x%x, instruction #%d of wavefront %s returns different data: %s [%s]", fd.Name, fd.PC, fd.Index, fd.Wf, det, diff)
+	}
 	if fd.Found {
 		k := fmt.Sprintf("%s|first-divergence|%s|%d|%s|%s", prefix, fd.Fmt, fd.Op, fd.Name, fd.What)
 		w := fmt.Sprintf("first diverging instruction: %s (%s opcode %d) at pc 0x%x, instruction #%d of wavefront %s — %s differs between emulation and timing. %s [%s]",
@@ -447,10 +451,11 @@ func (o *orch) keyFor(j *job, ts PlatSpec, variant, diff string, t runOut, fd fi
 		return k, w
 	}
 	// buffers differ although every instruction and every register state agree
-	k := prefix + "|buffers-differ-without-instruction-divergence"
-	if j.scope != "seeded" && j.scope != "shipped" && j.scope != "variant" {
-		k += "|" + feature
+	_ = feature
+	if cl, det, ok := explainBufferDiff(emuFull, emu, t.res); ok {
+		return prefix + "|final-memory|" + cl, "all wavefronts execute the same instructions with the same register results in both modes, yet the final device memory differs: " + det
 	}
+	k := prefix + "|buffers-differ-without-instruction-divergence"
 	return k, "all wavefronts execute the same instructions with the same register results in both modes, yet the final device memory differs (store path, cache flush or copy path): " + diff
 }
 
@@ -499,4 +504,141 @@ func initDiff(wf string, e, t *Ev) (firstDiv, bool) {
 			Detail: fmt.Sprintf("%s lane %d at wavefront start: emulation 0x%08x, timing 0x%08x", reg, lane, ev[i], tv[i])}, true
 	}
 	return firstDiv{}, false
+}
+
+// ---------------------------------------------------------------------------
+// memory explanation: which store produced the value emulation holds, and what
+// does timing hold instead
+
+type storeHit struct {
+	Seq   int    `json:"seq"`
+	Wf    string `json:"wavefront"`
+	Index int    `json:"inst_index"`
+	Name  string `json:"mnemonic"`
+	PC    uint64 `json:"pc"`
+	Value uint32 `json:"value"`
+}
+
+func decodeMem(s string) (exec uint64, addrs []uint64, data []uint32) {
+	b, _ := base64.StdEncoding.DecodeString(s)
+	if len(b) < 8+512 {
+		return 0, nil, nil
+	}
+	exec = binary.LittleEndian.Uint64(b)
+	addrs = make([]uint64, 64)
+	for i := range addrs {
+		addrs[i] = binary.LittleEndian.Uint64(b[8+8*i:])
+	}
+	rest := b[8+512:]
+	data = make([]uint32, len(rest)/4)
+	for i := range data {
+		data[i] = binary.LittleEndian.Uint32(rest[4*i:])
+	}
+	return
+}
+
+// storesTo lists, in emulation execution order, every store (active lane)
+// that covers the dword at addr and was executed before sequence number
+// before (0 = all).
+func storesTo(emu *Result, addr uint64, before int) []storeHit {
+	var out []storeHit
+	for wf, evs := range emu.Traces {
+		for i, e := range evs {
+			if e.Mem == "" || e.FN != "flat" || e.Op < 28 || e.Op > 31 {
+				continue
+			}
+			if before > 0 && e.Seq >= before {
+				continue
+			}
+			exec, addrs, data := decodeMem(e.Mem)
+			n := e.Op - 27
+			for lane := 0; lane < 64; lane++ {
+				if exec&(1<<uint(lane)) == 0 {
+					continue
+				}
+				a := addrs[lane]
+				if addr >= a && addr < a+uint64(4*n) && (addr-a)%4 == 0 && len(data) >= 64*n {
+					out = append(out, storeHit{Seq: e.Seq, Wf: wf, Index: i, Name: e.Name, PC: e.PC, Value: data[lane*n+int(addr-a)/4]})
+				}
+			}
+		}
+	}
+	sort.Slice(out, func(i, j int) bool { return out[i].Seq < out[j].Seq })
+	return out
+}
+
+// classifyValue says what the timing value at addr is, given the emulation's
+// store history: "older-store-survives", "pre-store-contents", "unwritten",
+// "unexplained".
+func classifyValue(hits []storeHit, timingVal uint32) (string, string) {
+	if len(hits) == 0 {
+		return "address-never-stored-to", "no store instruction of the program covers this address"
+	}
+	last := hits[len(hits)-1]
+	for i := len(hits) - 2; i >= 0; i-- {
+		if hits[i].Value == timingVal && hits[i].Value != last.Value {
+			return "older-store-survives", fmt.Sprintf("timing holds 0x%08x = value of the OLDER store %s (#%d of %s, pc 0x%x); the last store in program order is %s (#%d of %s, pc 0x%x) with value 0x%08x",
+				timingVal, hits[i].Name, hits[i].Index, hits[i].Wf, hits[i].PC, last.Name, last.Index, last.Wf, last.PC, last.Value)
+		}
+	}
+	return "last-store-not-visible", fmt.Sprintf("timing holds 0x%08x, which no store to this address produced; the last store in program order is %s (#%d of %s, pc 0x%x) with value 0x%08x (%d stores cover the address)",
+		timingVal, last.Name, last.Index, last.Wf, last.PC, last.Value, len(hits))
+}
+
+// explainBufferDiff looks at the first differing dword of the first differing
+// buffer.
+func explainBufferDiff(emuFull, emuRes, timRes *Result) (class, detail string, ok bool) {
+	if emuFull == nil || emuFull.Traces == nil || timRes == nil {
+		return "", "", false
+	}
+	for i := range emuRes.Buffers {
+		if i >= len(timRes.Buffers) {
+			break
+		}
+		x, y := emuRes.Buffers[i], timRes.Buffers[i]
+		if x.SHA == y.SHA || x.Data == "" || y.Data == "" {
+			continue
+		}
+		a, _ := base64.StdEncoding.DecodeString(x.Data)
+		b, _ := base64.StdEncoding.DecodeString(y.Data)
+		for off := 0; off+4 <= len(a) && off+4 <= len(b); off += 4 {
+			ev, tv := binary.LittleEndian.Uint32(a[off:]), binary.LittleEndian.Uint32(b[off:])
+			if ev == tv {
+				continue
+			}
+			addr := x.Ptr + uint64(off)
+			hits := storesTo(emuFull, addr, 0)
+			cl, det := classifyValue(hits, tv)
+			return cl, fmt.Sprintf("buffer %d (%s) offset %d (address 0x%x): emulation 0x%08x, timing 0x%08x; %s", i, x.Name, off, addr, ev, tv, det), true
+		}
+	}
+	return "", "", false
+}
+
+// explainLoadDiff: a load returned different data in timing; relate the value
+// timing loaded to the emulation's store history of that address.
+func explainLoadDiff(emuFull, timFull *Result, fd firstDiv) (class, detail string, ok bool) {
+	if emuFull == nil || timFull == nil || !fd.Found || fd.What != "dst" || fd.Fmt != "flat" || fd.Index < 0 {
+		return "", "", false
+	}
+	e := emuFull.Traces[fd.Wf][fd.Index]
+	t := timFull.Traces[fd.Wf][fd.Index]
+	if e.Mem == "" {
+		return "", "", false
+	}
+	_, addrs, _ := decodeMem(e.Mem)
+	ev, tv := decodeRegs(e.Dst), decodeRegs(t.Dst)
+	for x := range ev {
+		if x < len(tv) && ev[x] != tv[x] {
+			lane, reg := x%64, x/64
+			addr := addrs[lane] + uint64(4*reg)
+			if e.Op != 20 && e.Op != 21 && e.Op != 23 {
+				return "", "", false // sub-dword loads: width / extension, not memory contents
+			}
+			hits := storesTo(emuFull, addr, e.Seq)
+			cl, det := classifyValue(hits, tv[x])
+			return cl, fmt.Sprintf("lane %d loads address 0x%x: emulation 0x%08x, timing 0x%08x; %s", lane, addr, ev[x], tv[x], det), true
+		}
+	}
+	return "", "", false
 }
